@@ -25,7 +25,7 @@ func init() {
 		Rule: "E-SEQ: breadth-first search over ban histories (administrator disconnect with no/temporary/permanent ban, reconnect attempts from the banned address, the same host on another port and two look-alike addresses with right/wrong password, " +
 			"server restart from the files, virtual clock advances of 1 s / 25 min / 31 min / 24 h) replayed on a fresh real server under a virtual clock; door behaviour compared with a reference ban model after every operation; " +
 			"states deduplicated by ban table (remaining time), connected set and restart count",
-		Assumptions: []string{"instants within 3 s of a ban's expiry are not probed", "4 peer addresses; one target user"},
+		Assumptions:    []string{"instants within 3 s of a ban's expiry are not probed", "4 peer addresses; one target user"},
 		Run:            runC17,
 		Replay:         replayC17,
 		MinOutcomes:    10,
@@ -42,14 +42,15 @@ type c17Ban struct {
 }
 
 type c17World struct {
-	wd     *world.World
-	adm    *world.Client
-	tgt    *world.Client // the user currently connected from address A (nil if none)
-	tgtID  uint16
-	bans   map[string]c17Ban
-	viol   []explore.SchedV
-	nconn  int
-	starts int
+	wd      *world.World
+	adm     *world.Client
+	tgt     *world.Client // the user currently connected from address A (nil if none)
+	tgtID   uint16
+	bans    map[string]c17Ban
+	viol    []explore.SchedV
+	nconn   int
+	starts  int
+	faulted bool // the ban list could not be saved: nothing further is specified
 }
 
 func (x *c17World) fail(clause, detail string) {
@@ -85,7 +86,10 @@ func (x *c17World) door(name, pw string) (c *world.Client, class string) {
 	x.nconn++
 	c = x.wd.Dial(addr)
 	c.Handshake()
-	id := c.Login123("user", pw, "u"+name, 1)
+	var id uint32
+	if pw != "<silent>" { // a silent peer completes the handshake and sends nothing further
+		id = c.Login123("user", pw, "u"+name, 1)
+	}
 	world.Settle(5 * time.Second)
 	c.Poll()
 	r := c.Reply(id)
@@ -106,6 +110,8 @@ func (x *c17World) door(name, pw string) (c *world.Client, class string) {
 		class = "login-refused"
 	case r == nil && notices == 1 && others == 0 && c.Conn.Closed:
 		class = "ban-notice-only"
+	case pw == "<silent>" && r == nil && notices == 0 && others == 0 && !c.Conn.Closed:
+		class = "waiting-for-login"
 	default:
 		class = fmt.Sprintf("other(reply=%v notices=%d others=%d closed=%v)", r, notices, others, c.Conn.Closed)
 	}
@@ -114,10 +120,20 @@ func (x *c17World) door(name, pw string) (c *world.Client, class string) {
 
 func (x *c17World) apply(op string) bool {
 	p := strings.Split(op, ":")
+	if x.faulted {
+		return false
+	}
 	switch p[0] {
-	case "kick", "deafkick":
+	case "kick", "deafkick", "faultkick":
 		if x.tgt == nil {
 			return false
+		}
+		if p[0] == "faultkick" {
+			// the ban list cannot be saved (its temporary file name is taken by a directory): whatever becomes
+			// of the ban, the user is disconnected and the others are told. What the door does afterwards is
+			// not specified for a server that could not record the ban: the history ends here.
+			_ = os.MkdirAll(filepath.Join(x.wd.ConfigDir, "Banlist.yaml.tmp", "x"), 0755)
+			x.faulted = true
 		}
 		if p[0] == "deafkick" {
 			// the target stops reading and a broadcast to it is pending when the administrator disconnects it
@@ -137,7 +153,7 @@ func (x *c17World) apply(op string) bool {
 		id := x.adm.Req(ref.TDisconnectUser, fs...)
 		world.Settle(5 * time.Second)
 		r := x.adm.Reply(id)
-		if r == nil || r.Err != 0 {
+		if (r == nil || r.Err != 0) && p[0] != "faultkick" {
 			x.fail("disconnect/request-refused", fmt.Sprint(r))
 		}
 		if !x.tgt.Conn.Closed {
@@ -156,13 +172,19 @@ func (x *c17World) apply(op string) bool {
 		}
 		switch p[1] {
 		case "temp":
+			if x.faulted {
+				break
+			}
 			x.bans["10.0.0.1"] = c17Ban{until: at.Add(30 * time.Minute)}
 		case "perm":
+			if x.faulted {
+				break
+			}
 			x.bans["10.0.0.1"] = c17Ban{perm: true}
 		}
 		x.tgt = nil
 	case "conn":
-		name, pw := p[1], map[string]string{"right": "userpw", "wrong": "nope"}[p[2]]
+		name, pw := p[1], map[string]string{"right": "userpw", "wrong": "nope", "silent": "<silent>"}[p[2]]
 		if name == "A" && x.tgt != nil {
 			return false
 		}
@@ -176,6 +198,8 @@ func (x *c17World) apply(op string) bool {
 			want = "ban-notice-only"
 		} else if p[2] == "wrong" {
 			want = "login-refused"
+		} else if p[2] == "silent" {
+			want = "waiting-for-login"
 		}
 		if class != want {
 			clause := "door/unbanned-address-not-served"
@@ -185,6 +209,10 @@ func (x *c17World) apply(op string) bool {
 				clause = "door/wrong-password-served"
 			}
 			x.fail(clause, fmt.Sprintf("connection from %s (%s password) at %s: %s, reference %s; bans %s", c17Addrs[name], p[2], vrt.Now().Sub(vrt.Epoch), class, want, x.banString()))
+		}
+		if class == "waiting-for-login" {
+			c.Hangup()
+			world.Quiet()
 		}
 		if class == "served" {
 			if name == "A" {
@@ -269,7 +297,7 @@ func (x *c17World) canon() string {
 		impl = append(impl, ip+"="+st)
 	}
 	raw, _ := os.ReadFile(filepath.Join(x.wd.ConfigDir, "Banlist.yaml"))
-	return fmt.Sprintf("bans[%s] impl[%s] file=%x target=%v restarted=%v", strings.Join(s, ","), strings.Join(impl, ","), explore.Hash(string(raw))&0xffff*0+uint64(len(strings.Split(string(raw), "\n"))), x.tgt != nil, x.starts > 0)
+	return fmt.Sprintf("bans[%s] impl[%s] file=%x target=%v restarted=%v faulted=%v", strings.Join(s, ","), strings.Join(impl, ","), explore.Hash(string(raw))&0xffff*0+uint64(len(strings.Split(string(raw), "\n"))), x.tgt != nil, x.starts > 0, x.faulted)
 }
 
 func c17Exec(hist []string) (res explore.SeqResult) {
@@ -283,6 +311,12 @@ func c17Exec(hist []string) (res explore.SeqResult) {
 		x := &c17World{wd: wd, bans: map[string]c17Ban{}}
 		if !x.connectAdmin() {
 			res.Violations = append(res.Violations, explore.SchedV{Signature: "C17/setup", Detail: "admin login failed"})
+			return
+		}
+		if len(hist) == 1 && strings.HasPrefix(hist[0], "sameaddr:") {
+			x.sameAddress(strings.Split(hist[0], ":")[1], strings.Split(hist[0], ":")[2])
+			res.Canon = hist[0]
+			res.Violations = x.viol
 			return
 		}
 		// initial state: the target user is connected from address A
@@ -302,8 +336,55 @@ func c17Exec(hist []string) (res explore.SeqResult) {
 	return res
 }
 
+// sameAddress: two users are connected from one address; an administrator disconnects both, one with a
+// permanent and one with a temporary ban (in either order). The address stays refused indefinitely:
+// after the 30 minutes of the temporary ban and after a restart.
+func (x *c17World) sameAddress(first, second string) {
+	var cl [2]*world.Client
+	var ids [2]uint16
+	for i, name := range []string{"A", "A2"} {
+		c, class := x.door(name, "userpw")
+		if class != "served" {
+			x.fail("door/unbanned-address-not-served", fmt.Sprintf("%s: %s", name, class))
+			return
+		}
+		cl[i] = c
+		for _, u := range x.wd.UserList(x.adm) {
+			if u.Name == "u"+name {
+				ids[i] = u.ID
+			}
+		}
+	}
+	for i, kind := range []string{first, second} {
+		opt := map[string]uint16{"temp": 1, "perm": 2}[kind]
+		id := x.adm.Req(ref.TDisconnectUser, ref.F16(ref.FUserID, ids[i]), ref.F16(ref.FOptions, opt))
+		world.Settle(5 * time.Second)
+		if r := x.adm.Reply(id); r == nil || r.Err != 0 {
+			x.fail("disconnect/request-refused", fmt.Sprint(r))
+		}
+		if !cl[i].Conn.Closed {
+			x.fail("disconnect/connection-not-closed", fmt.Sprintf("user %d from the shared address", i+1))
+		}
+	}
+	check := func(when string) {
+		if _, class := x.door("A", "userpw"); class != "ban-notice-only" {
+			x.fail("door/permanently-banned-address-admitted-after-a-later-temporary-ban", fmt.Sprintf("two users from 10.0.0.1 were disconnected with a %s and then a %s ban; %s a connection from that address is %s", first, second, when, class))
+		}
+	}
+	check("right afterwards")
+	vrt.Advance(31 * time.Minute)
+	world.Settle(0)
+	check("31 minutes later")
+	x.wd.Start()
+	if !x.connectAdmin() {
+		x.fail("restart/admin-cannot-log-in", "")
+		return
+	}
+	check("after a restart")
+}
+
 func c17Alphabet() []string {
-	return []string{"kick:none", "kick:temp", "kick:perm", "deafkick:none", "deafkick:temp", "conn:A:right", "conn:A:wrong", "conn:A2:right", "conn:A2:wrong", "conn:B:right", "conn:C:right", "conn:B:wrong",
+	return []string{"kick:none", "kick:temp", "kick:perm", "deafkick:none", "deafkick:temp", "faultkick:temp", "faultkick:perm", "conn:A:silent", "conn:B:silent", "conn:A:right", "conn:A:wrong", "conn:A2:right", "conn:A2:wrong", "conn:B:right", "conn:C:right", "conn:B:wrong",
 		"restart", "tick:1s", "tick:25m", "tick:31m", "tick:24h"}
 }
 
@@ -410,6 +491,16 @@ func runC17(w *explore.Worker) {
 		bound = 3
 	}
 	explore.ExploreSchedules(w, explore.SchedConfig{Harness: "C17concurrent", Bound: bound, FreeCost: 1, MaxSteps: 20000, Suspend: true}, c17Concurrent)
+	if w.Mine(1) {
+		for _, h := range []string{"sameaddr:perm:temp", "sameaddr:temp:perm"} {
+			w.Eval()
+			res := c17Exec([]string{h})
+			for _, v := range res.Violations {
+				w.Violation(v.Signature, v.Detail+"\nhistory: "+h, 1, explore.SeqReplay{Kind: "history", Harness: "C17bans", History: []string{h}})
+			}
+			w.Outcome(h)
+		}
+	}
 	depth := 5
 	if w.Thorough {
 		depth = 6
